@@ -114,6 +114,14 @@ def normalise(spec: dict, thorough: bool = False) -> dict:
     if spec.get("units_exp") and (spec["vtype"] == "sympy" or spec["design"] == "vectors" or spec.get("int_h0")):
         # `atol` also bounds dimensionless quantities (orthonormality of eigenvectors): only designations by index
         spec["units_exp"] = 0
+    if spec.get("atol_boundary"):
+        # two levels of one block exactly `atol` apart (atol = 2^-k passed by the user, levels on the 1/16 grid: the
+        # difference is bitwise equal to atol); only for float values designated by index
+        if spec["vtype"] == "sympy" or spec["design"] == "vectors" or spec.get("int_h0") or spec.get("units_exp") or max(spec["sizes"]) < 2:
+            spec["atol_boundary"] = 0
+        else:
+            spec["fine_grid"] = False
+            spec["user_atol"] = 2.0 ** -int(spec["atol_boundary"])
     if spec.get("symbolic") and spec["vtype"] == "sympy":
         if N > 5 or spec["complex"] or spec["design"] == "vectors":
             spec["symbolic"] = False
@@ -237,7 +245,18 @@ def build(spec: dict) -> Problem:
         nums[o] = _rand_matrix(rng, N, cplx and not spec.get("real_pert"), herm_values, integer=bool(spec.get("int_all")))
     z = (0,) * n_par
 
-    terms_f = {z: np.diag(np.array(E_num, float) / eden + 1j * np.array(E_im, float) / 2).astype(complex)}
+    bump = np.zeros(N)
+    atol_eff = 0.0
+    if spec.get("atol_boundary") and not exact:
+        atol_eff = 2.0 ** -int(spec["atol_boundary"])
+        b0 = int(np.argmax(np.array(sizes) >= 2))
+        i0 = int(np.concatenate([[0], np.cumsum(sizes)])[b0])
+        if E_num[i0] == 0:
+            atol_eff = 0.0  # a block diag(0, atol) is zero within atol: the library (by design) treats it as absent
+        else:
+            E_num[i0 + 1], E_im[i0 + 1] = E_num[i0], E_im[i0]
+            bump[i0 + 1] = atol_eff
+    terms_f = {z: np.diag(np.array(E_num, float) / eden + bump + 1j * np.array(E_im, float) / 2).astype(complex)}
     for o, (re, im) in nums.items():
         terms_f[o] = (re + 1j * im).astype(complex) / DEN
     terms_x = None
@@ -258,7 +277,7 @@ def build(spec: dict) -> Problem:
 
     # --- selection: keep matrix
     Ec = np.diag(terms_f[z])
-    same_E = Ec[:, None] == Ec[None, :]
+    same_E = (Ec[:, None] == Ec[None, :]) | (np.abs(Ec[:, None] - Ec[None, :]) <= atol_eff)
     same_block = block_of[:, None] == block_of[None, :]
     keep = same_block.copy()
     sel = spec["sel"]
@@ -293,6 +312,8 @@ def build(spec: dict) -> Problem:
         spec=spec, hermitian=hermitian, sizes=sizes, N=N, n_par=n_par, exact=exact, E=E, terms_f=terms_f,
         terms_x=terms_x, keep=keep, block_of=block_of, masks=masks, fd=fd, orders=orders,
     )
+    if atol_eff:
+        prob.notes["atol_boundary"] = atol_eff
     _encode(prob, rng_for(*spec["case"], 7))
     return prob
 
